@@ -4,6 +4,7 @@ package main
 
 import (
 	"bytes"
+	"encoding/csv"
 	"fmt"
 	"math/rand"
 	"os"
@@ -359,10 +360,166 @@ func asmTokenise(text string) (src []asmLine, ok bool) {
 	return src, true
 }
 
+// ---- flag preprocessor (asm -f table.csv file) ---------------------------------------------
+
+// a flag table as its CSV records; fields are generated without quotes, commas, line breaks or
+// leading blanks, so that encoding/csv returns exactly these records (the CSV syntax itself is
+// outside the model)
+type asmRows [][]string
+
+func (t asmRows) term() string {
+	r := make([]string, len(t))
+	for i, row := range t {
+		r[i] = hx.SList(row)
+	}
+	return hx.List(r)
+}
+
+func (t asmRows) csv() string {
+	sb := strings.Builder{}
+	for _, row := range t {
+		sb.WriteString(strings.Join(row, ","))
+		sb.WriteString("\n")
+	}
+	return sb.String()
+}
+
+var asmFlagDescs = []string{"and this is the description of the flag 'bar'", "x", "set when done", "8", "flag"}
+
+func asmGenFlagName(r *rand.Rand) string {
+	switch r.Intn(8) {
+	case 0:
+		return asmPick(r, []string{"foo", "bar", "baz", "flag_foo", "identified"})
+	case 1:
+		return string(asmLower[r.Intn(26)])
+	}
+	return string(asmLower[r.Intn(26)]) + asmRandOver(r, asmWordch, 1+r.Intn(7))
+}
+
+// documented table: 2-5 distinct names over the symbol alphabet, numbers 8..40, sometimes a description
+func asmGenTable(r *rand.Rand) (asmRows, []string) {
+	n := 2 + r.Intn(4)
+	rows := asmRows{}
+	names := []string{}
+	seen := map[string]bool{}
+	for len(rows) < n {
+		nm := asmGenFlagName(r)
+		if seen[nm] {
+			continue
+		}
+		seen[nm] = true
+		names = append(names, nm)
+		row := []string{"flag", nm, fmt.Sprintf("%d", 8+r.Intn(33))}
+		if r.Intn(3) == 0 {
+			row = append(row, asmPick(r, asmFlagDescs))
+		}
+		rows = append(rows, row)
+	}
+	return rows, names
+}
+
+// one malformed or unusual row added to (or replacing one of) a documented table
+func asmSpoilTable(r *rand.Rand, rows asmRows, names []string) asmRows {
+	nm := names[r.Intn(len(names))]
+	var row []string
+	switch r.Intn(14) {
+	case 0:
+		row = []string{"flag", asmGenFlagName(r), asmPick(r, []string{"7", "0", "3"})} // below FLAG_USERSTART: load error
+	case 1:
+		row = []string{"flag", asmGenFlagName(r), asmPick(r, []string{"x", "", "1a", "8 ", "99999999999999999999"})} // not numeric: load error
+	case 2:
+		row = asmPick2(r, [][]string{{"flag", "zz"}, {"flag"}}) // too few fields: load error
+	case 3:
+		row = []string{"flag", nm, fmt.Sprintf("%d", 8+r.Intn(33))} // the name defined twice: the later row wins
+	case 4:
+		row = asmPick2(r, [][]string{{"note", nm, "3"}, {"Flag", nm, "9"}, {"x"}, {"", "flag", nm, "9"}}) // not a flag row: ignored
+	case 5:
+		row = []string{"flag", nm, asmPick(r, []string{"010", "08", "0012"})} // leading zero: passes Atoi, read as octal (or refused) by the assembler
+	case 6:
+		row = []string{"flag", nm, asmPick(r, []string{"+12", "-9", "-0"})} // signs pass Atoi
+	case 7:
+		row = []string{"flag", nm, asmPick(r, []string{"255", "256", "300", "65536", "4294967295", "4294967296"})}
+	case 8:
+		row = []string{"flag", asmPick(r, []string{"Foo", "1a", "8", "12", "a.b", "*", "_x", "99999999999999999999"}), "9"} // names that are not symbols
+	case 9:
+		row = []string{"flag", nm, "11", "desc", "more", "fields"}
+	case 10:
+		return asmRows{} // empty table
+	default:
+		return rows
+	}
+	if r.Intn(2) == 0 {
+		return append(append(asmRows{}, rows...), row)
+	}
+	return append(asmRows{row}, rows...)
+}
+
+func asmPick2(r *rand.Rand, l [][]string) []string { return l[r.Intn(len(l))] }
+
+// the flag argument of CATCH/CROAK lines is replaced by a name of the table (mostly), a name
+// the table does not define, or left a number; at least one such line is present
+func asmUseFlags(r *rand.Rand, src []asmLine, names []string) []asmLine {
+	flagArg := func() string {
+		switch r.Intn(10) {
+		case 0:
+			return asmPick(r, []string{"nope", "undefined_flag", "x9"})
+		case 1, 2:
+			return fmt.Sprintf("%d", 8+r.Intn(60))
+		case 3:
+			if r.Intn(3) == 0 {
+				return asmPick(r, []string{"010", "00", "1a", "*", "99999999999999999999", "Foo", "4294967296"})
+			}
+		}
+		return names[r.Intn(len(names))]
+	}
+	has := false
+	out := []asmLine{}
+	for _, l := range src {
+		l = asmLine{Op: l.Op, Args: append([]string{}, l.Args...)}
+		if l.Op == "CATCH" && len(l.Args) == 3 {
+			l.Args[1] = flagArg()
+			has = true
+		}
+		if l.Op == "CROAK" && len(l.Args) == 2 {
+			l.Args[0] = flagArg()
+			has = true
+		}
+		out = append(out, l)
+	}
+	if !has {
+		var l asmLine
+		if r.Intn(2) == 0 {
+			l = asmLn("CATCH", asmGenNode(r), flagArg(), asmGenMode(r))
+		} else {
+			l = asmLn("CROAK", flagArg(), asmGenMode(r))
+		}
+		k := 0
+		for k < len(out) && !(out[k].Op == "DOWN" || out[k].Op == "UP" || out[k].Op == "NEXT" || out[k].Op == "PREVIOUS") {
+			k++
+		}
+		k = r.Intn(k + 1)
+		out = append(out[:k:k], append([]asmLine{l}, out[k:]...)...)
+	}
+	return out
+}
+
+// the records encoding/csv returns for a file (as FlagParser.Load reads it)
+func asmReadRows(fp string) (asmRows, error) {
+	f, err := os.Open(fp)
+	if err != nil {
+		return nil, err
+	}
+	defer f.Close()
+	rd := csv.NewReader(f)
+	rd.FieldsPerRecord = -1
+	recs, err := rd.ReadAll()
+	return asmRows(recs), err
+}
+
 // ---- driver --------------------------------------------------------------------------
 
 func runAsm(o opts) error {
-	w := &hx.Writer{Dir: o.out, Prop: o.prop, Imports: "Bytes Errors Consts Codec CorrBase CodecCorr AsmModel AsmCorr",
+	w := &hx.Writer{Dir: o.out, Prop: o.prop, Imports: "Bytes Errors Consts Codec CorrBase CodecCorr AsmModel AsmPreModel AsmCorr",
 		CaseType: "acase", Mism: "asm_mismatches", Viol: "asm_violations", PerShard: 150}
 
 	// the shipped assembler command (dev/asm, built from /repo by bin/check next to this binary)
@@ -394,6 +551,35 @@ func runAsm(o opts) error {
 			Term: fmt.Sprintf("ACmd %s %s %d", asmSrcTerm(src), hx.B(so.Bytes()), code),
 			Key:  "cmd:" + asmSrcTerm(src),
 			Desc: map[string]interface{}{"src": src, "text": text, "stdout": fmt.Sprintf("%x", so.Bytes()), "exit": code}})
+	}
+	addPre := func(rows asmRows, csvText string, src []asmLine, text string, kind string) {
+		fp := filepath.Join(o.out, "asm_input.vis")
+		cp := filepath.Join(o.out, "asm_flags.csv")
+		if err := os.WriteFile(fp, []byte(text), 0600); err != nil {
+			panic(err)
+		}
+		if err := os.WriteFile(cp, []byte(csvText), 0600); err != nil {
+			panic(err)
+		}
+		cmd := exec.Command(asmBin, "-f", cp, fp)
+		var so, se bytes.Buffer
+		cmd.Stdout, cmd.Stderr = &so, &se
+		err := cmd.Run()
+		code := 0
+		if err != nil {
+			if ee, ok := err.(*exec.ExitError); ok {
+				code = ee.ExitCode()
+			} else {
+				panic(err)
+			}
+		}
+		os.Remove(fp)
+		os.Remove(cp)
+		w.Count(fmt.Sprintf("pre:%s/exit%d", kind, code))
+		w.Add(hx.Case{Kind: "pre:" + kind, Trivial: len(src) == 0,
+			Term: fmt.Sprintf("APre %s %s %s %d", rows.term(), asmSrcTerm(src), hx.B(so.Bytes()), code),
+			Key:  "pre:" + rows.term() + asmSrcTerm(src),
+			Desc: map[string]interface{}{"table": rows, "csv": csvText, "src": src, "text": text, "stdout": fmt.Sprintf("%x", so.Bytes()), "exit": code}})
 	}
 	add := func(src []asmLine, text string, kind string) {
 		nAdded++
@@ -509,6 +695,81 @@ func runAsm(o opts) error {
 		r := hx.Rng(o.seed, "asm-adv", i)
 		src := asmGenAdvSource(r)
 		add(src, asmPrintSrc(r, src), "adv")
+	}
+	// ---- the command with its flag preprocessor ----
+	repo := "/repo"
+	if d := os.Getenv("VERIF_REPO"); d != "" {
+		repo = d
+	}
+	// the repository's example: examples/preprocessor/*.vis with pp.csv
+	ppDir := filepath.Join(repo, "examples", "preprocessor")
+	if rows, err := asmReadRows(filepath.Join(ppDir, "pp.csv")); err == nil {
+		csvBytes, _ := os.ReadFile(filepath.Join(ppDir, "pp.csv"))
+		ppFiles, _ := filepath.Glob(filepath.Join(ppDir, "*.vis"))
+		sort.Strings(ppFiles)
+		for _, f := range ppFiles {
+			d, err := os.ReadFile(f)
+			if err != nil {
+				continue
+			}
+			if src, ok := asmTokenise(string(d)); ok {
+				addPre(rows, string(csvBytes), src, string(d), "example")
+			}
+		}
+	}
+	tbl := asmRows{{"flag", "foo", "8"}, {"flag", "bar", "10", "and this is the description of the flag 'bar'"}, {"flag", "baz", "12"}}
+	preCorpus := []struct {
+		rows asmRows
+		src  []asmLine
+	}{
+		{tbl, []asmLine{asmLn("CATCH", "last", "bar", "1"), asmLn("CROAK", "baz", "1"), asmLn("HALT")}},
+		{tbl, []asmLine{asmLn("CATCH", "last", "10", "1"), asmLn("CROAK", "12", "0")}}, // numbers pass
+		{tbl, []asmLine{asmLn("CATCH", "last", "nope", "1")}},                          // unknown name: exit 1
+		{tbl, []asmLine{asmLn("MOVE", "foo"), asmLn("CROAK", "nope", "0")}},            // unknown name after a good line: nothing written
+		{tbl, []asmLine{asmLn("CATCH", "last", "8")}},                                  // nil dereference in processFlag: exit 2
+		{tbl, []asmLine{asmLn("CATCH", "last", "nope")}},                               // lookup error comes before the dereference: exit 1
+		{tbl, []asmLine{asmLn("CATCH", "last")}}, {tbl, []asmLine{asmLn("CROAK", "baz")}}, {tbl, []asmLine{asmLn("CATCH")}},
+		{tbl, []asmLine{asmLn("CROAK", "baz", "1", "x")}},   // third token dropped by the preprocessor
+		{tbl, []asmLine{asmLn("CATCH", "foo", "010", "1")}}, // numeral with leading zero passes Atoi; octal in the assembler
+		{tbl, []asmLine{asmLn("CATCH", "foo", "00", "1")}}, {tbl, []asmLine{asmLn("CATCH", "foo", "1a", "1")}},
+		{tbl, []asmLine{asmLn("CATCH", "foo", "*", "1")}}, {tbl, []asmLine{asmLn("CATCH", "foo", "99999999999999999999", "1")}},
+		{tbl, []asmLine{asmLn("INCMP", "foo", "1a")}}, {tbl, []asmLine{asmLn("INCMP", "foo", "00")}}, {tbl, []asmLine{asmLn("INCMP", "Foo", "a")}},
+		{tbl, []asmLine{asmLn("INCMP", "foo", "1", "2", "3")}}, {tbl, []asmLine{asmLn("MOVE", "a.b", "c", "d")}},
+		{tbl, []asmLine{asmLn("LOAD", "foo", "37"), asmLn("CATCH", "x", "foo", "0"), asmLn("DOWN", "foo", "0", "to_foo"), asmLn("UP", "b2", "back"), asmLn("NEXT", "11", "fwd"), asmLn("PREVIOUS", "22", "back")}},
+		{tbl, []asmLine{}},
+		{asmRows{{"flag", "bar", "010"}}, []asmLine{asmLn("CATCH", "foo", "bar", "1")}},               // octal through the table: signal 8
+		{asmRows{{"flag", "bar", "9"}, {"flag", "bar", "11"}}, []asmLine{asmLn("CROAK", "bar", "1")}}, // later row wins
+		{asmRows{{"flag", "bar", "7"}}, []asmLine{asmLn("HALT")}},                                     // load error
+		{asmRows{{"flag", "bar", "x"}}, []asmLine{asmLn("HALT")}}, {asmRows{{"flag", "bar"}}, []asmLine{asmLn("HALT")}},
+		{asmRows{{"note", "bar", "3"}, {"flag", "bar", "37"}}, []asmLine{asmLn("CATCH", "foo", "bar", "0")}},
+		{asmRows{{"flag", "bar", "+12"}}, []asmLine{asmLn("CROAK", "bar", "0")}}, {asmRows{{"flag", "bar", "-9"}}, []asmLine{asmLn("HALT")}},
+		{asmRows{{"flag", "8", "12"}}, []asmLine{asmLn("CATCH", "foo", "8", "1")}},                                       // a numeral as name is never looked up
+		{asmRows{{"flag", "99999999999999999999", "12"}}, []asmLine{asmLn("CATCH", "foo", "99999999999999999999", "1")}}, // ... unless Atoi refuses it
+		{asmRows{}, []asmLine{asmLn("CROAK", "bar", "0")}},
+	}
+	for _, c := range preCorpus {
+		addPre(c.rows, c.rows.csv(), c.src, asmPlainText(c.src), "corpus")
+	}
+	npre := o.n / 3
+	for i := 0; i < npre; i++ {
+		r := hx.Rng(o.seed, "asm-pre", i)
+		rows, names := asmGenTable(r)
+		var src []asmLine
+		kind := "doc"
+		if i%5 == 4 {
+			kind = "adv"
+			src = asmUseFlags(r, asmGenAdvSource(r), names)
+			if r.Intn(2) == 0 {
+				rows = asmSpoilTable(r, rows, names)
+			}
+		} else {
+			src = asmUseFlags(r, asmGenDocSource(r, i), names)
+			if i%7 == 6 {
+				kind = "doc-spoilt"
+				rows = asmSpoilTable(r, rows, names)
+			}
+		}
+		addPre(rows, rows.csv(), src, asmPrintSrc(r, src), kind)
 	}
 	return w.Flush()
 }
